@@ -6,7 +6,13 @@ Sub-commands: operands are written as .sig files under .build/tmp, the
 sub-command runs (in-process through `sourmash.__main__.main`, the exact entry
 point of the `sourmash` console script; or, with SETOPS_CLI=subprocess, as
 `python -m sourmash sig ...` in a fresh interpreter), the written signature is
-read back and its sketch stored."""
+read back and its sketch stored.
+
+Route suffixes of the sub-command ops (`u.cli+k`, `d cli+kf`, ...): `k` = every operand file additionally
+holds decoy signatures (DNA k=31, protein k=7, dayhoff k=7, each with hashes of its own) and the sub-command is
+given `-k 21 --dna` (without the selection the decoys would be merged in or make the command fail); `f` = the
+operands (for merge / intersect: all but the first, which fixes the template) are handed over through
+`--from-file <list>`."""
 import atexit
 import contextlib
 import io
@@ -37,13 +43,62 @@ def tmpdir():
     return _TMP
 
 
+DECOYS = [False]      # set per op line from the route suffix
+
+
+def decoys_for(mh):
+    """signatures of other k-mer sizes / molecule types with the same num / scaled and other hashes"""
+    out = []
+    for ksize, kw, hs in ((31, {}, (1, 2, 3, 5)), (7, {"is_protein": True}, (2, 3, 4)), (7, {"dayhoff": True}, (1, 7))):
+        d = MinHash(mh.num, ksize, track_abundance=mh.track_abundance, seed=mh.seed, scaled=mh.scaled, **kw)
+        for h in hs:
+            d.add_hash(h)
+        out.append(SourmashSignature(d, name=f"decoy-k{ksize}-{d.moltype}"))
+    return out
+
+
+_SAME = {}             # per op line: object id -> path already written (`sig merge f.sig f.sig`)
+
+
 def write_sig(mh, tag):
+    if id(mh) in _SAME:
+        return _SAME[id(mh)]
+    p = _write_sig(mh, tag)
+    _SAME[id(mh)] = p
+    return p
+
+
+def _write_sig(mh, tag):
     _N[0] += 1
     p = os.path.join(tmpdir(), f"s{_N[0]}-{tag}.sig")
     ss = SourmashSignature(mh, name=f"{tag}-{_N[0]}")
+    sigs = [ss]
+    if DECOYS[0]:
+        d = decoys_for(mh)
+        sigs = d[:1] + [ss] + d[1:]
     with open(p, "w") as fp:
-        sourmash.save_signatures_to_json([ss], fp)
+        sourmash.save_signatures_to_json(sigs, fp)
     return p
+
+
+def select_args():
+    return ["-k", "21", "--dna"] if DECOYS[0] else []
+
+
+def positional(paths, from_file, keep_first):
+    """argv tail for the operand files: positional, or (route `f`) through --from-file"""
+    if not from_file:
+        return list(paths), []
+    _N[0] += 1
+    lst = os.path.join(tmpdir(), f"list{_N[0]}.txt")
+    head = list(paths[:1]) if keep_first and len(paths) > 1 else []
+    rest = paths[len(head):]
+    if len(set(rest)) < len(rest):
+        # the path list is read into a `set`: a file named twice would be loaded once; keep such operands positional
+        return list(paths), []
+    with open(lst, "w") as fp:
+        fp.write("".join(x + "\n" for x in rest))
+    return head + ["--from-file", lst], [lst]
 
 
 class CliFailed(Exception):
@@ -111,6 +166,14 @@ def main():
             continue
         op = w[0]
         paths = []
+        route = ""
+        if op == "d" and len(w) > 1 and "+" in w[1]:
+            w[1], route = w[1].split("+", 1)
+        elif "+" in op:
+            op, route = op.split("+", 1)
+        DECOYS[0] = "k" in route
+        from_file = "f" in route
+        _SAME.clear()
         try:
             if op == "#":
                 T = {}
@@ -166,10 +229,25 @@ def main():
                     res = A.inflate(B)
                 else:   # n.cli: sig inflate <from> <other>
                     paths = [write_sig(A, "from"), write_sig(B, "other")]
-                    rs = cli_result(["sig", "inflate", "-q", paths[0], paths[1]], outpath())
+                    rs = cli_result(["sig", "inflate", "-q"] + select_args() + [paths[0], paths[1]], outpath())
                     if len(rs) != 1:
                         raise CliFailed("SystemExit")
                     res = rs[0]
+                T[r] = res
+            elif op in ("u.merge.self", "u.iadd.self", "u.addmany.self", "s.rm.self"):
+                # the receiver object is ALSO the operand (one Python object, one Rust object behind both pointers)
+                if len(a) != 2:
+                    raise KeyError
+                r, x = map(int, a)
+                res = T[x].to_mutable()
+                if op == "u.merge.self":
+                    res.merge(res)
+                elif op == "u.iadd.self":
+                    res += res
+                elif op == "u.addmany.self":
+                    res.add_many(res)
+                else:
+                    res.remove_many(res)
                 T[r] = res
             elif op in ("f.meth", "f.cli"):
                 if len(a) != 2:
@@ -179,7 +257,9 @@ def main():
                     T[r] = T[x].flatten()
                 else:
                     paths = [write_sig(T[x], "a")]
-                    rs = cli_result(["sig", "flatten", "-q", paths[0]], outpath())
+                    tail, more = positional(paths, from_file, False)
+                    paths += more
+                    rs = cli_result(["sig", "flatten", "-q"] + select_args() + tail, outpath())
                     if len(rs) != 1:
                         raise CliFailed("SystemExit")
                     T[r] = rs[0]
@@ -195,7 +275,9 @@ def main():
                 elif kind in ("cli", "ncli"):
                     paths = [write_sig(T[x], "a")]
                     flag = ["--scaled", str(v)] if kind == "cli" else ["--num", str(v)]
-                    rs = cli_result(["sig", "downsample", "-q"] + flag + [paths[0]], outpath())
+                    tail, more = positional(paths, from_file, False)
+                    paths += more
+                    rs = cli_result(["sig", "downsample", "-q"] + flag + select_args() + tail, outpath())
                     if len(rs) != 1:
                         raise CliFailed("SystemExit")
                     T[r] = rs[0]
@@ -210,7 +292,7 @@ def main():
                 argv = ["sig", "filter", "-q", "-m", str(mn)]
                 if mx != "-":
                     argv += ["-M", str(int(mx))]
-                rs = cli_result(argv + [paths[0]], outpath())
+                rs = cli_result(argv + select_args() + [paths[0]], outpath())
                 if len(rs) == 0:
                     cleanup(paths)
                     out.write("ok skipped\n")
@@ -220,7 +302,9 @@ def main():
                 r, fl = int(a[0]), int(a[1])
                 hs = [T[int(x)] for x in a[2:]]
                 paths = [write_sig(m, f"m{i}") for i, m in enumerate(hs)]
-                argv = ["sig", "merge", "-q"] + (["--flatten"] if fl else []) + paths
+                tail, more = positional(paths, from_file, True)
+                paths += more
+                argv = ["sig", "merge", "-q"] + (["--flatten"] if fl else []) + select_args() + tail
                 rs = cli_result(argv, outpath())
                 if len(rs) != 1:
                     raise CliFailed("SystemExit")
@@ -230,11 +314,13 @@ def main():
                 ab = opt(T, a[1])
                 hs = [T[int(x)] for x in a[2:]]
                 paths = [write_sig(m, f"m{i}") for i, m in enumerate(hs)]
-                argv = ["sig", "intersect", "-q"]
+                argv = ["sig", "intersect", "-q"] + select_args()
                 if ab is not None:
                     paths.append(write_sig(ab, "abund"))
                     argv += ["-A", paths[-1]]
-                rs = cli_result(argv + paths[:len(hs)], outpath())
+                tail, more = positional(paths[:len(hs)], from_file, True)
+                paths += more
+                rs = cli_result(argv + tail, outpath())
                 if len(rs) != 1:
                     raise CliFailed("SystemExit")
                 T[r] = rs[0]
@@ -244,7 +330,7 @@ def main():
                 frm = T[int(a[3])]
                 hs = [T[int(x)] for x in a[4:]]
                 paths = [write_sig(frm, "from")] + [write_sig(m, f"m{i}") for i, m in enumerate(hs)]
-                argv = ["sig", "subtract", "-q"] + (["--flatten"] if fl else [])
+                argv = ["sig", "subtract", "-q"] + (["--flatten"] if fl else []) + select_args()
                 if ab is not None:
                     paths.append(write_sig(ab, "abund"))
                     argv += ["-A", paths[-1]]
